@@ -100,13 +100,17 @@ def applyChanges (fuel : Nat) : Tree → List Req → Res Tree
     let t ← doHierarchyChange t fuel r.change r.parent r.win
     applyChanges fuel t rs
 
-/-- The loop over the damage rectangles. -/
-def exposeRects (beh : Id → Rect → List DrawOp) (t : Tree) (pens : Array (Option Pen)) (fuel : Nat) :
+/-- The loop over the damage rectangles; `bounds` is the root window's current area (a rectangle recorded before the
+    terminal shrank is cut down to it, or skipped). -/
+def exposeRects (beh : Id → Rect → List DrawOp) (t : Tree) (pens : Array (Option Pen)) (fuel : Nat) (bounds : Rect) :
     List Rect → RB × List Shot → Res (RB × List Shot)
   | [], s => .ok s
-  | rect :: rest, s => do
-    let s1 ← doExpose beh t pens fuel 0 rect ((s.1.save).clipTo rect, s.2)
-    exposeRects beh t pens fuel rest (s1.1.restore, s1.2)
+  | rect0 :: rest, s =>
+    match Rect.intersect rect0 bounds with
+    | none => exposeRects beh t pens fuel bounds rest s
+    | some rect => do
+      let s1 ← doExpose beh t pens fuel 0 rect ((s.1.save).clipTo rect, s.2)
+      exposeRects beh t pens fuel bounds rest (s1.1.restore, s1.2)
 
 /-- The first half of `tickit_window_flush`: clear `needs_later_processing`, apply the queued restacking requests. -/
 def flushQueue (st : St) : Res Tree :=
@@ -120,7 +124,7 @@ def flushRender (beh : Id → Rect → List DrawOp) (st : St) (t : Tree) : Res (
     let rb := RB.new root.rect.lines root.rect.cols
     let rects := t.root.damage
     let t : Tree := { t with root := { t.root with needsExpose := false, damage := [], needsRestore := false } }
-    let s ← exposeRects beh t st.pens st.fuel rects (rb, [])
+    let s ← exposeRects beh t st.pens st.fuel ⟨0, 0, root.rect.lines, root.rect.cols⟩ rects (rb, [])
     pure ({ st with tree := t, screen := s.1.flushToGrid st.screen }, s.2)
   else
     pure ({ st with tree := { t with root := { t.root with needsRestore := false } } }, [])
@@ -245,13 +249,32 @@ def subtractChildren (t : Tree) : List Id → List Rect → Res (List Rect)
       let v ← rsSub v cw.rect
       subtractChildren t cs v
 
+/-- The clipping loop at the head of `_scroll`: `rect` (in the scrolled window's coordinates) is cut down to the bounds of
+    every ancestor; `top`, `left` accumulate the offset of the scrolled window in the coordinates of `w`'s parent. -/
+def clipToAncestors (t : Tree) : Nat → Id → Int → Int → Rect → Res (Option Rect)
+  | 0, _, _, _, _ => .ub "parent chain too long"
+  | fuel + 1, w, top, left, rect => do
+    let ww ← get t w
+    match ww.parent with
+    | none => pure (some rect)
+    | some p => do
+      let pw ← get t p
+      let top := top + ww.rect.top
+      let left := left + ww.rect.left
+      match Rect.intersect rect ⟨-top, -left, pw.rect.lines, pw.rect.cols⟩ with
+      | none => pure none
+      | some r => clipToAncestors t fuel p top left r
+
 /-- `_scroll(win, origrect, downward, rightward, pen, mask_children)`. -/
 def scroll (oracle : Oracle) (st : St) (win : Id) (origrect : Rect) (d r : Int) (pen : Option Pen) (maskChildren : Bool) :
     Res (St × Bool) := do
   let w ← get st.tree win
   match Rect.intersect ⟨0, 0, w.rect.lines, w.rect.cols⟩ origrect with
   | none => pure (st, false)
-  | some rect =>
+  | some rect0 =>
+    match ← clipToAncestors st.tree st.fuel win 0 0 rect0 with
+    | none => pure (st, false)
+    | some rect =>
     let visible ← rsAdd [] rect
     let visible ← if maskChildren then subtractChildren st.tree w.children visible else pure visible
     scrollRectSet oracle st win visible d r (pen.getD {})
